@@ -352,6 +352,20 @@ pub fn sanitize(gc: &mut GrammarConfig, ids: &str) {
                     }
                 }
             }
+            // F25i: several `%on` directives for one token in one scanner state
+            "F25i" => {
+                for sc in gc.scanner_configurations.iter_mut() {
+                    let mut seen: Vec<u16> = vec![];
+                    sc.transitions.retain(|(t, _)| {
+                        if seen.contains(t) {
+                            false
+                        } else {
+                            seen.push(*t);
+                            true
+                        }
+                    });
+                }
+            }
             // F25g: comment delimiter containing an unescaped `"` (rendered inside "…")
             "F25g" => {
                 for sc in gc.scanner_configurations.iter_mut() {
@@ -753,7 +767,8 @@ fn gen_doc(rng: &mut Rng, tame: bool) -> Doc {
                 let mut v: Vec<String> = vec![];
                 for _ in 0..n {
                     let t = *rng.pick(&mine);
-                    if !used.contains(&t) {
+                    // (wild documents may name a token in several %on directives of one state: F25i)
+                    if !used.contains(&t) || (!tame && rng.chance(1, 4)) {
                         used.push(t);
                         v.push(format!("Tm{t}"));
                     }
@@ -914,6 +929,13 @@ const FIXED_DOCS: &[&str] = &[
     "%start S %nt_type B = x::Y %% S: \"a\" : B B; B: \"b\";",
     "%start S %block_comment '\"\"\"' '\"\"\"' %% S: 'a';",
     "%start S %on T %enter INITIAL %% S: T X; T: 'a'; X: 'a' | 'b' 'c';",
+    "%start S %on T %push X %on T %enter X %scanner X { %on T %pop } %% S: T; T: <INITIAL, X>'a';",
+    // further boundary documents
+    "%start S %t_type a::B %t_type c::D %% S: 'a';",
+    "%start S %scanner X { } %% S: <X, X, INITIAL>'a';",
+    "%start S %user_type A = x::Y %user_type A = z::W %user_type B = x::Y %% S: 'a' : A 'b' : B 'c' : x::Y;",
+    "%start S %skip T, T %skip U %% S: T U; T: 'a'; U: 'b';",
+    "%start S %% S: \"a\" ?= \"b\\\"c\" | 'x' ?! 'it\\'s';",
 ];
 
 fn repo_root() -> String {
@@ -969,7 +991,7 @@ pub fn generate_rt(seed: u64, thorough: bool) -> Vec<String> {
             docs.push(t);
         }
     }
-    let n = if thorough { 6000 } else { 700 };
+    let n = if thorough { 12000 } else { 2400 };
     for i in 0..n {
         docs.push(gen_doc(&mut rng, i % 4 != 3).text);
     }
